@@ -196,6 +196,10 @@ class FunTerm:
                     r = self.block(st.orelse)
                     if r is not None:
                         return r
+                if st.finalbody:        # the normal path runs it after the body
+                    r = self.block(st.finalbody)
+                    if r is not None:
+                        return r
             elif isinstance(st, ast.Raise):
                 return tm.atom_poly(("raise",))
             elif isinstance(st, (ast.Continue,)):
